@@ -177,3 +177,14 @@ example : ReplaceGuard (some ⟨"engineStart", "n", 0⟩) := by
   decide
 
 end Eru.Props.C11
+
+namespace Eru.Props.C11
+open Eru.Cluster
+/-- non-vacuity of the cancellation plans: the caller of a removal is cancelled right AFTER the usage
+was released; the store removal then fails with the context error (nobody injected a fault), the
+rollback — detached from the caller — re-increments, the part reports failure and nothing changed. -/
+example :
+    let r := run (removeTxn (⟨1, "n", 5⟩ : Wl Int)) none Eru.Props.C10.witness (some (⟨"pluginSetUsage:decr", "n", 0⟩, true))
+    r.1 = .fail ∧ r.2.st.usage "n" = 5 ∧ r.2.tr = [("pluginSetUsage:decr", "n", true), ("storeRemoveWorkload", "n", false), ("pluginSetUsage:incr", "n", true)] := by
+  decide
+end Eru.Props.C11
